@@ -46,6 +46,8 @@ func checkC17(c *Check) {
 	ruleInitTransition(c, p, "R17.10")
 	ruleCloseWAlwaysCloses(c, p, "R17.19")
 	c.RuleDoc["R17.19"] = "= R08.15: Close waits for the block pipeline on every path (legacy frames included): data accepted before Close is in the sink when Close returns"
+	ruleContentHashDiscipline(c, p, "R17.21")
+	c.RuleDoc["R17.21"] = "= R02.11: the running content hash is reset where a frame starts and nowhere else (a reset before the pipeline is drained lets blocks of the abandoned frame into the next frame's checksum)"
 	ruleReaderDst(c, p, "R17.20")
 	c.RuleDoc["R17.20"] = "= R02.6: every block is decoded into the whole block buffer, whatever the previous block left in the slice header"
 	ruleTerminalStatesStay(c, p, "R17.18")
